@@ -39,6 +39,7 @@ func (h *H) inFromBytes(node string, src *net.UDPAddr, b []byte) {
 		ev["y"], ev["q"], ev["t"] = string(y), string(q), sim.Hex(t)
 		if a := d.Dict("a"); a != nil && string(y) == "q" {
 			ev["hasA"] = true
+			ev["ih"] = sim.Hex(make([]byte, 20))
 			if tok, ok := a.Str("token"); ok {
 				ev["tok"] = sim.Hex(tok)
 			}
